@@ -245,6 +245,9 @@ func (o *Oracles) beforeOp(op *DiskOp) {
 	in := op.Inst
 	d := in.disk
 	sid := in.ID()
+	if op.Kind == OpSnapClose && op.Site == "installSnapshot" {
+		in.installing = true
+	}
 	switch op.Kind {
 	case OpDeleteRange:
 		o.stat("delete@" + op.Site)
@@ -774,6 +777,9 @@ func (o *Oracles) grant(s *Server, term uint64, cand string, how string) {
 // onResponseProduced runs when a live server has answered a request.
 func (o *Oracles) onResponseProduced(m *Msg, target *Instance) {
 	m.ProducedSeq = o.w.Seq
+	if m.Kind == KSnapshot && target != nil {
+		target.installing = false
+	}
 	switch r := m.Resp.(type) {
 	case *raft.RequestVoteResponse:
 		if r.Granted && m.Err == nil {
